@@ -103,20 +103,20 @@ Callback(r) ==
     /\ LET c == r.c    i == r.id IN
        IF GivesBack(c, i)
        THEN /\ cbs' = (cbs \ {r}) \cup {[r EXCEPT !.stage = "sleep"]}
-            /\ hist' = <<"cb_sleep", c, i>>
+            /\ hist' = <<"cb_sleep", c, i, r.tag>>
             /\ UNCHANGED <<qn, qd, qx, unacked, tagmap, delivd, local, ret, norder>>
        ELSE IF Overdue(i) /\ cons[c].cat = "n"
        THEN \* basic_nack(requeue=False): dead-lettered through qn's dead-letter exchange
             /\ cbs' = cbs \ {r} /\ unacked' = unacked \ TagRec(r.tag)
             /\ qx' = Append(qx, i)
-            /\ hist' = <<"cb_expired", c, i>>
+            /\ hist' = <<"cb_expired", c, i, r.tag>>
             /\ UNCHANGED <<qn, qd, tagmap, delivd, local, ret, norder>>
        ELSE /\ cbs' = cbs \ {r}
             /\ tagmap' = [tagmap EXCEPT ![i] = r.tag]
             /\ delivd' = [delivd EXCEPT ![c] = [j \in Ids |-> IF j = i THEN r.tag
                                                             ELSE IF delivd[c][j] # 0 /\ tagmap'[j] = delivd[c][j] THEN delivd[c][j] ELSE 0]]
             /\ local' = [local EXCEPT ![c] = Append(@, i)]
-            /\ hist' = <<"cb_queue", c, i>>
+            /\ hist' = <<"cb_queue", c, i, r.tag>>
             /\ UNCHANGED <<qn, qd, qx, unacked, ret, norder>>
     /\ UNCHANGED <<now, cons, ntag, meta, st, heldc, transit, pend, deliv, orig>>
 
@@ -229,7 +229,8 @@ FinishReject(c) ==
            U == {u \in unacked : u.id \in R /\ u.tag = tagmap[u.id]} IN
        /\ tagmap' = [i \in Ids |-> IF i \in R THEN 0 ELSE tagmap[i]]
        /\ unacked' = unacked \ U
-       /\ \E s \in SetToSeqs({u.id : u \in U}) :       \* (local queue first, then _delivered: an order the model leaves open)
+       /\ \E s \in SetToSeqs({u.id : u \in U}) :       \* (local queue first, in its order; then the other _delivered entries)
+            /\ LET lq == SelectSeq(local[c], LAMBDA y : \E u \in U : u.id = y) IN SubSeq(s, 1, Len(lq)) = lq
             /\ CASE cons[c].cat = "n" -> qn' = PutFront(qn, s) /\ UNCHANGED <<qd, qx>>
                  [] cons[c].cat = "x" -> qx' = PutFront(qx, s) /\ UNCHANGED <<qn, qd>>
                  [] cons[c].cat = "d" -> /\ qd' = PutFront(qd, [k \in 1..Len(s) |-> <<s[k], (CHOOSE u \in U : u.id = s[k]).exp>>])
